@@ -26,14 +26,14 @@ def check_bytes(R: bytes) -> list[tuple[str, str]]:
         m = dlde.DataReadout(R)
     except (ValueError, IndexError):
         return []  # constructor refuses: not an is_valid answer
-    return P.readout_errors(m)
+    return P.readout_errors_all_orders(m)
 
 
 def check_reader(R: bytes, chunks) -> list[tuple[str, str]]:
     got, _ = P.feed(chunks)
     errs = []
     for m in got:
-        errs += P.readout_errors(m)
+        errs += P.readout_errors_all_orders(m)
     return errs
 
 
@@ -67,7 +67,7 @@ def _both(p, R, label, reader_all_cuts=True):
         except Exception:  # noqa: BLE001
             v = "raises"
         p.out(f"direct:valid={v}")
-        _note(p, R, P.readout_errors(m), "bytes", [], label)
+        _note(p, R, P.readout_errors_all_orders(m), "bytes", [], label)
         if v is True:
             p.add("nontrivial_valid")
     except (ValueError, IndexError):
@@ -88,7 +88,7 @@ def _both(p, R, label, reader_all_cuts=True):
         p.add("events", len(chunks))
         p.out(f"reader:returned={len(got)}")
         for m in got:
-            _note(p, R, P.readout_errors(m), "reader", cuts, label)
+            _note(p, R, P.readout_errors_all_orders(m), "reader", cuts, label)
 
 
 def _work_field(task) -> core.Part:
@@ -110,7 +110,7 @@ def _work_field(task) -> core.Part:
         for txt in dict.fromkeys(variants):
             R = head + txt + eol
             m = dlde.DataReadout(R)
-            errs = P.readout_errors(m)
+            errs = P.readout_errors_all_orders(m)
             p.add("readouts")
             p.add("executions")
             if val == crc:
